@@ -147,6 +147,13 @@ package native
 //@ requires c != nil && ic != nil
 //@ call emitTransfer requires[args] arg2 == from && arg3 == to && arg4 == amount && ncalls(emitTransfer) == 0 && ncalls(GetContract) == 0 && ncalls(CallFromNative) == 0
 //@ ensures[emitted] ncalls(emitTransfer) == 1
+// A transfer to a deployed contract always offers the payment to that contract's onNEP17Payment
+// (which may refuse it and so undo the transfer): the shortcut that finishes the transfer without
+// the callback is taken only when there is no recipient, when the caller asked for no callback, or
+// when the recipient is not a contract.
+//@ call funcvalue:var.continuation requires[nocallback] to == nil || !callOnPayment || err != nil
+//@ call CallFromNative requires[payment] arg2 == cs
+//@ call CallFromNative requires[void] !arg5
 
 //@ func (*nep17TokenNative).emitTransfer
 //@ may-panic
